@@ -271,6 +271,42 @@ def check_case(kind, opts, texts, pattern=None):
     return None
 
 
+def disc_schema(pn, k1, k2):
+    """a discriminated union: the discriminator property name and the two tag values are input text"""
+    ref = lambda n: {"$ref": "#/definitions/" + n}
+    member = lambda k, extra: {"type": "object", "properties": {pn: {"const": k}, extra: {"type": "integer"}}, "required": [pn]}
+    return {"title": "Owner", "type": "object",
+            "properties": {"pet": {"oneOf": [ref("Cat"), ref("Dog")], "discriminator": {"propertyName": pn, "mapping": {k1: "#/definitions/Cat", k2: "#/definitions/Dog"}}}},
+            "definitions": {"Cat": member(k1, "lives"), "Dog": member(k2, "bark")}}
+
+
+def check_disc(kind, opts, pn, k1, k2):
+    g = e2e.generate(json.dumps(disc_schema(pn, k1, k2)), kind=kind, **opts)
+    if g.timeout:
+        return "generate() does not terminate"
+    if not g.ok:
+        return None
+    err = e2e.parses(g.text)
+    if err:
+        return f"output does not parse: {err}"
+    plain = pn.isidentifier() and not __import__("keyword").iskeyword(pn) and not pn.startswith("_")
+    g0 = e2e.generate(json.dumps(disc_schema("petkind" if plain else "pet-kind", "k-1", "k-2")), kind=kind, **opts)
+    if not g0.ok or e2e.parses(g0.text):
+        return None
+    t1, t0 = ast.parse(g.text), ast.parse(g0.text)
+    if shape(t1) != shape(t0):
+        return "module structure differs from the neutral-placeholder run"
+    cset = set(str_constants(t1))
+    for what, v in (("tag value", k1), ("tag value", k2)):
+        if kind == "typing.TypedDict":
+            continue  # a const member is written as plain str there (no value slot)
+        if v not in cset:
+            return f"{what} {v!r} is not a string constant of the output"
+    if not plain and kind in ("pydantic.BaseModel", "pydantic_v2.BaseModel", "msgspec.Struct", "typing.TypedDict") and pn not in cset:
+        return f"discriminator property name {pn!r} is not kept as a string constant"
+    return None
+
+
 def raw_safe_py(p, keys):
     esc = False
     for c in p:
@@ -343,6 +379,25 @@ def falsify(ctx):
                 ctx.violation(f"e2e:{kind}:{json.dumps(texts, sort_keys=True)}:{sorted(opts)}:{pattern!r}",
                               f"{kind} {sorted(opts)} texts={texts!r} pattern={pattern!r}: {why}",
                               {"kind": kind, "opts": {k: (v if isinstance(v, bool) else str(v)) for k, v in opts.items()}, "texts": texts, "pattern": pattern, "why": why})
+    # discriminated unions: property name and tag values as text slots (class keywords of msgspec, Literal values, aliases)
+    specials = ["'", '"', "\\", "\n", "pet's kind", "kind\\", "k', tag='x', frozen=True, rename='", 'say "hi"', "a\nb", "{{ 7*7 }}", "\0", '"""', "\\'", "x\ty", "\x85", "#"]
+    dcases = [(sp, "k-1", "k-2") for sp in specials] + [("pet-kind", sp, sp + "2") for sp in specials]
+    for _ in range(ctx.n(40, 600)):
+        a, b, c = rand_text(rng), rand_text(rng), rand_text(rng)
+        dcases.append((a or "x-1", b, c if c != b else c + "2"))
+    for i, (pn, k1, k2) in enumerate(dcases):
+        for kind in (e2e.KINDS if ctx.thorough or i < 2 * len(specials) else [rng.choice(e2e.KINDS)]):
+            opts = {"use_one_literal_as_default": True} if (i + len(kind)) % 2 else {}
+            ctx.count("eval_e2e")
+            ctx.bucket("kind", kind)
+            ctx.bucket("family", "discriminator")
+            ctx.nontrivial("disc:" + json.dumps([pn, k1, k2]))
+            why = check_disc(kind, opts, pn, k1, k2)
+            if why:
+                seen += 1
+                if seen <= 8:
+                    ctx.violation(f"disc:{kind}:{json.dumps([pn, k1, k2])}:{sorted(opts)}", f"{kind} {sorted(opts)} discriminator {pn!r} tags {k1!r} {k2!r}: {why}",
+                                  {"kind": kind, "opts": opts, "disc": [pn, k1, k2], "why": why})
     ctx.sample({"texts": cases[-1]})
 
 
@@ -356,11 +411,17 @@ def _opts(o):
 
 def replay_finding(ctx, f):
     r = f["replay"]
+    if "disc" in r:
+        return check_disc(r["kind"], r["opts"], *r["disc"]) is not None
     return check_case(r["kind"], _opts(r["opts"]), r["texts"], r.get("pattern")) is not None
 
 
 def replay(ctx, payload):
     r = payload.get("replay", payload)
+    if "disc" in r:
+        why = check_disc(r["kind"], r["opts"], *r["disc"])
+        print("replay:", why or "no violation")
+        return 1 if why else 0
     if "texts" not in r:
         print(json.dumps(payload, indent=1)[:3000])
         return 0
